@@ -713,8 +713,11 @@ def generate(repo):
     which axis, the exponent scalars and norms of the matrix DFT, the chirp-Z index glue and chirp constants, the pad offset)
     re-emitted into `Generated.C03`, followed by the C03 items"""
     import gen_c01
+    # C03 translates the fixed-sampling Q / shift glue itself (per axis, symbolically executed), so the coarser
+    # `*.dispatch` items that gen_c01 emits for its own dispatch stream are skipped here (same Lean names)
     return gen_c01.generate(repo, pid='C03', extra_imports=['PrysmVerif.Num', 'PrysmVerif.Model.C03'],
-                            extra=lambda g, ft, pr: c03_items(g, ft, pr, repo))
+                            extra=lambda g, ft, pr: c03_items(g, ft, pr, repo),
+                            skip=('focus_fixed_sampling.dispatch', 'unfocus_fixed_sampling.dispatch'))
 
 
 if __name__ == '__main__':
